@@ -1,6 +1,7 @@
 import BqVerif.Model.Circ
 import BqVerif.Model.CircBlocks
 import BqVerif.Model.Partition
+import BqVerif.Model.PartitionBins
 import BqVerif.Drivers.Util
 import BqVerif.Drivers.Circ
 /-
@@ -11,6 +12,7 @@ Driver for the `partition` machine (C08).  Stateful: the block table.
         -> "ok"  or  "violated <clause>"
   flat <circuit>                          -> the unfolded op list (diagnostics)
   quick …                                 see `QuickSpec` (trace validation)
+  bins …                                  see `BinSpec` (Model/PartitionBins.lean)
 Circuit / op text formats are those of Drivers/Circ.lean.
 -/
 namespace BqVerif.Drv.Partition
@@ -24,6 +26,63 @@ def parseMove (t : String) : Option QMove :=
   | ["l", j, m] => do let j ← j.toNat?; let m ← m.toNat?; some (.lift j m)
   | ["f"] => some .fuse
   | _ => none
+
+/-- `cyc@op` -/
+def parseCOp (i : Nat) (t : String) : Option COp :=
+  match t.splitOn "@" with
+  | [c, o] => do let c ← c.toNat?; let o ← parseOp o; some ⟨i, c, o⟩
+  | _ => none
+
+def parseCOps (s : String) : Option (List COp) :=
+  if s == "-" then some [] else
+  ((s.splitOn "+").zipIdx.mapM (fun (t, i) => parseCOp i t))
+
+/-- `q,s,e;q,s,e` with `e = n` for an end still open (the harness sends ends + 1) -/
+def parseIvs (s : String) : Option (List (Nat × Nat × Option Nat)) :=
+  if s == "" then some [] else
+  (s.splitOn ";").mapM (fun t => match t.splitOn "," with
+    | [q, a, e] => do
+      let q ← q.toNat?; let a ← a.toNat?
+      let e ← if e == "n" then some none else (e.toNat?).map some
+      some (q, a, e)
+    | _ => none)
+
+inductive BTok
+  | mv (m : BMove)
+  | emit (b : Nat) (ivs : List (Nat × Nat × Option Nat))
+
+def parseBTok (t : String) : Option BTok :=
+  match t.splitOn ":" with
+  | ["a", b] => do let b ← b.toNat?; some (.mv (.add b))
+  | ["r", b] => do let b ← b.toNat?; some (.mv (.bar b))
+  | ["fin"] => some (.mv .finish)
+  | ["e", b, ivs] => do let b ← b.toNat?; let ivs ← parseIvs ivs; some (.emit b ivs)
+  | _ => none
+
+def ivLe (a b : Nat × Nat × Option Nat) : Bool := a.1 ≤ b.1
+def sortIvs (l : List (Nat × Nat × Option Nat)) : List (Nat × Nat × Option Nat) :=
+  l.foldr (fun x acc =>
+    let rec ins : List (Nat × Nat × Option Nat) → List (Nat × Nat × Option Nat)
+      | [] => [x]
+      | y :: ys => if ivLe x y then x :: y :: ys else y :: ins ys
+    ins acc) []
+
+/-- replay of the recorded bin events: every move legal, the real `starts/ends` of a placed
+bin equal the model's, the drain succeeds right after the scan, nothing left at the end -/
+def binsRun (bg : List Nat) : BState → List BTok → Nat → String
+  | s, [], _ =>
+    if s.done.isEmpty && s.todo.isEmpty then "ok" else s!"unplaced {s.done.length + s.todo.length}"
+  | s, .mv m :: ts, i =>
+    match bstep bg s m with
+    | none => s!"illegal {i}"
+    | some s' =>
+      if m == .finish && (bDrain (s'.done.length + 1) s').isNone then s!"drain-stuck {i}"
+      else binsRun bg s' ts (i + 1)
+  | s, .emit b ivs :: ts, i =>
+    if sortIvs (s.binIvs b) != sortIvs ivs then s!"bookkeeping {i}"
+    else match bstep bg s (.emit b) with
+      | none => s!"illegal {i}"
+      | some s' => binsRun bg s' ts (i + 1)
 
 structure St where
   blocks : Blocks := []
@@ -57,6 +116,13 @@ def step (st : St) (line : String) : St × String :=
           else (st, "ok " ++ " ".intercalate (s.out.map (fun g =>
             (if g.blk then "B:" else "b:") ++ ",".intercalate (g.ops.map (fun x => toString x.tag))))))
      | _, _, _, _, _ => bad)
+  | ("bins" :: gids) :: [nc] :: [ops] :: toks :: [] =>
+    -- bins <barrier gids…> | <num_cycles> | <cyc@op+cyc@op+…> | <moves…>
+    (match nats gids, nc.toNat?, parseCOps ops, toks.mapM parseBTok with
+     | some gids, some nc, some l, some ts =>
+       if !(gridWFb l && l.all (fun x => x.cyc < nc)) then (st, "violated input-not-a-grid")
+       else (st, binsRun gids (BState.init l nc) ts 0)
+     | _, _, _, _ => bad)
   | [["flat", ct]] =>
     (match parseCirc ct with
      | some c => (st, "+".intercalate ((flat st.blocks c.ops).map showOp))
